@@ -437,23 +437,57 @@ def r8_first_use_validates(ck, P, rid='C16-R8'):
     dirty, and the *next* requests, possibly concurrent, write to it."""
     R = ck.rule(rid, 'in every exported function that validates an image parameter (a call of the validate function on it), every return is reached only through that call, except on paths that log a caller error: a request that is refused or found empty before the validation leaves a shared source dirty, and the two threads that use it next both store its flags, format code and accessors - a write to an image that is supposed to be read-only after its first use', floor=5)
     V = common.find_validate(P)
+    # exported functions that validate a given image parameter themselves, or hand it to one that does (fixpoint)
+    validates = {}
+    for f in common.public_api(P):
+        for c in f.calls():
+            if isinstance(c.callee, str) and P.resolve(f, c.callee) is V and f.strip_casts(c.a[0])[0] == 'a':
+                validates.setdefault(f, set()).add(f.strip_casts(c.a[0])[1])
+    grew = True
+    while grew:
+        grew = False
+        for f in common.public_api(P):
+            for c in f.calls():
+                g = P.resolve(f, c.callee) if isinstance(c.callee, str) else None
+                if g is None or g not in validates or g is f:
+                    continue
+                for j, a in enumerate(c.a):
+                    o = f.strip_casts(a)
+                    if j in validates[g] and o[0] == 'a' and o[1] not in validates.get(f, set()):
+                        validates.setdefault(f, set()).add(o[1]); grew = True
     n = 0
     for f in common.public_api(P):
         for c in f.calls():
-            if P.resolve(f, c.callee) is not V if isinstance(c.callee, str) else True:
+            g_ = P.resolve(f, c.callee) if isinstance(c.callee, str) else None
+            if g_ is V:
+                o = f.strip_casts(c.a[0])
+            elif g_ in validates and g_ is not f:
+                os_ = [f.strip_casts(a) for j, a in enumerate(c.a) if j in validates[g_] and f.strip_casts(a)[0] == 'a' and (f.params[f.strip_casts(a)[1]][0] or '') not in ('dst', 'dest', 'destination')]
+                if not os_:
+                    continue
+                o = os_[0]
+            else:
                 continue
-            o = f.strip_casts(c.a[0])
             if o[0] != 'a':
                 continue
             k = o[1]
             if (f.params[k][0] or '') in ('dst', 'dest', 'destination'):
                 continue            # destinations are thread-private by the property's premise
+            if g_ is not V and (f.params[k][0] or '') not in ('src', 'mask', 'source', 'src_image', 'mask_image'):
+                continue            # through a callee only for what is named a source or mask (an `image` handed on is a destination or a glyph being stored)
             # only the first validation of that parameter matters
-            if any(c2 is not c and c2.i < c.i and isinstance(c2.callee, str) and P.resolve(f, c2.callee) is V and list(f.strip_casts(c2.a[0])) == ['a', k] for c2 in f.calls()):
+            def validates_k(c2):
+                g2 = P.resolve(f, c2.callee) if isinstance(c2.callee, str) else None
+                if g2 is V:
+                    return list(f.strip_casts(c2.a[0])) == ['a', k]
+                if g2 in validates and g2 is not f:
+                    return any(j in validates[g2] and list(f.strip_casts(a)) == ['a', k] for j, a in enumerate(c2.a))
+                return False
+            if any(c2 is not c and c2.i < c.i and validates_k(c2) for c2 in f.calls()):
                 continue
             n += 1; ck.saw(f)
             # blocks reachable from the entry without passing the call's block (and without passing an error-logging block or a NULL test of the image itself)
-            avoid = {c.bb.id} | {b.id for b in f.blocks if common.is_log_error_block(f, b.id)}
+            avoid = {c2.bb.id for c2 in f.calls() if validates_k(c2)} | {b.id for b in f.blocks if common.is_log_error_block(f, b.id)}
             # the image may be optional: the edge "image == NULL" skips the validation legitimately
             cut = set()
             for b in f.blocks:
